@@ -33,7 +33,9 @@
 (* others at their default, for both kinds (exhaustive run); "sweep" = the  *)
 (* default font of each kind with Notice padded to every length in Pads     *)
 (* (exhaustive run); "rand" = all dimensions chosen independently (use      *)
-(* -simulate); "big" = a few large fonts.                                   *)
+(* -simulate); "big" = a few large fonts; "shapes" = every shape of a       *)
+(* nibble-coded real (sign x 1..9 digits x position of the decimal point)   *)
+(* in every float-typed DICT field (exhaustive run).                        *)
 (***************************************************************************)
 EXTENDS CFFLayoutOps, Json
 
@@ -76,6 +78,25 @@ BlueScales == << <<39625, -6>>, <<5, -1>>, <<1, 0>>, <<123456789, -9>>, <<1, -9>
                  <<987654321, -299>>, <<3, -2>>, <<39635, -6>>, <<0, 0>> >>
 StdWs == << <<0, 0>>, <<80, 0>>, <<405, -1>>, <<123456789, -5>>, <<1, 4>>, <<1, -7>>,
             <<333333333, -250>>, <<1, 0>>, <<99999, -1>>, <<123456789, -8>> >>
+
+(* The shape space of a nibble-coded real: sign, m = 1..9 significant digits (two digit families:
+   1, 12, 123, ... and 7, 11, 101, 1001, ...), and the position of the decimal point relative to the
+   digits: "0.0000ddd" (up to four zeros after the point) ... "0.ddd", every position inside the digits,
+   "ddd", "ddd0" ... "ddd0000", and two exponent forms (10^12, 10^-(25+m)).  Entries <<mantissa, e, m>>. *)
+ShapeMant(fam, m) == IF fam = 1 THEN 123456789 \div P10(9 - m) ELSE IF m = 1 THEN 7 ELSE P10(m - 1) + 1
+ShapeExp(m, k) == IF k <= m + 9 THEN k - (m + 5) ELSE IF k = m + 10 THEN 12 ELSE -(25 + m)
+ShapeSeq ==
+  FoldLeft(LAMBDA acc, x : acc \o [k \in 1..(x[3] + 11) |-> <<x[1] * ShapeMant(x[2], x[3]), ShapeExp(x[3], k), x[3]>>],
+           <<>>,
+           [i \in 1..36 |-> <<IF i <= 18 THEN 1 ELSE -1, IF ((i - 1) % 18) < 9 THEN 1 ELSE 2, ((i - 1) % 9) + 1>>])
+ShapeAt(i) == ShapeSeq[((i - 1) % Len(ShapeSeq)) + 1]
+ShapeFonts == (Len(ShapeSeq) + 23) \div 24          \* 24 reals per font: top matrix + three FD matrices
+\* font k carries shapes 24(k-1)+1 .. 24k in 24 slots (b = 0: top matrix, b = 1..3: FD matrices); the
+\* rotation rot moves every shape through every slot, hence through every float-typed field
+ShapeBlock(k, rot, b) == [i \in 1..6 |-> ShapeAt(24 * (k - 1) + ((6 * b + i - 1 + rot) % 24) + 1)]
+Me(x) == <<x[1], x[2]>>
+AbsMe(x) == <<IF x[1] < 0 THEN -x[1] ELSE x[1], x[2]>>
+Mag(x) == x[3] + x[2]                                 \* value in [10^(Mag-1), 10^Mag)
 
 Dflt == [kind |-> "simple", n |-> 5, namePat |-> "custom", cidPat |-> "ident", nfd |-> 1, fdPat |-> "zero",
        encPat |-> "range", encK |-> 2, nSup |-> 0, wPat |-> "ints", strPat |-> "custom", pad |-> 0,
@@ -223,6 +244,7 @@ FM(pat, sel, dflt) ==
                             Reals[((sel + 9) % Len(Reals)) + 1], Reals[((sel + 13) % Len(Reals)) + 1],
                             Reals[((sel + 16) % Len(Reals)) + 1] >>
     [] pat = "neg"    -> << <<-1, -3>>, Z, Z, <<-1, -3>>, <<-50, 0>>, <<125, -1>> >>
+    [] pat = "shapes"  -> [i \in 1..6 |-> Me(ShapeBlock(sel[1], sel[2], 0)[i])]
     [] pat = "extreme" -> << <<1, -320>>, Z, Z, <<1, -3>>, <<1, 305>>, <<-7, -305>> >>
 
 Blues(pat) == CASE pat = "none"  -> <<>>
@@ -236,7 +258,18 @@ PrivOf(dd, j) ==   \* private dictionary j (1-based) of descriptor dd
       pp == IF j = 1 THEN dd.privPat
             ELSE CASE dd.privPat = "none" -> "typ" [] dd.privPat = "typ" -> "bnd"
                    [] dd.privPat = "max14" -> "none" [] dd.privPat = "bnd" -> "max14"
-  IN [blues |-> Blues(pp),
+      sh == ShapeBlock(dd.realSel, dd.intSel, j)
+  IN IF dd.fmPat = "shapes" THEN
+     \* every float-typed field of the private / font DICT carries a shape real that fits its range
+     [blues |-> Blues(pp), other |-> <<>>,
+      blueScale |-> IF Mag(sh[3]) <= 0 THEN AbsMe(sh[3]) ELSE <<39625, -6>>,
+      blueShift |-> 7, blueFuzz |-> 1,
+      stdHW |-> IF Mag(sh[1]) <= 4 THEN AbsMe(sh[1]) ELSE Z,
+      stdVW |-> IF Mag(sh[2]) <= 4 THEN AbsMe(sh[2]) ELSE Z,
+      forceBold |-> FALSE,
+      fm |-> [i \in 1..6 |-> Me(sh[i])]]
+     ELSE
+     [blues |-> Blues(pp),
       other |-> IF pp \in {"max14", "bnd"} THEN <<-250, -240>> ELSE <<>>,
       blueScale |-> BlueScales[((r - 1) % Len(BlueScales)) + 1],
       blueShift |-> IntBnd[((s - 1) % Len(IntBnd)) + 1],
@@ -266,12 +299,19 @@ Expand(dd) ==
       fontName |-> s.fontName, version |-> s.version, notice |-> s.notice, copyright |-> s.copyright,
       fullName |-> s.fullName, familyName |-> s.familyName, weight |-> s.weight,
       fixed |-> (dd.intSel % 2 = 1),
-      angle |-> Angles[((dd.realSel - 1) % Len(Angles)) + 1],
-      ulPos |-> CASE dd.ulPat = "def" -> <<-100, 0>> [] dd.ulPat = "int" -> <<-75, 0>>
+      angle |-> IF dd.fmPat = "shapes"
+                  THEN (LET x == ShapeBlock(dd.realSel, dd.intSel, 0)[4] IN IF (Mag(x) <= 2 /\ Mag(x) >= -2) \/ (x[3] = 1 /\ x[2] = 2 /\ x[1] \in {1, -1})
+                                                                  THEN Me(x) ELSE Z)   \* 0.001 <= |angle| < 180
+                  ELSE Angles[((dd.realSel - 1) % Len(Angles)) + 1],
+      ulPos |-> IF dd.fmPat = "shapes"
+                  THEN (LET x == ShapeBlock(dd.realSel, dd.intSel, 0)[5] IN IF Mag(x) <= 9 THEN Me(x) ELSE <<-100, 0>>) ELSE
+                CASE dd.ulPat = "def" -> <<-100, 0>> [] dd.ulPat = "int" -> <<-75, 0>>
                   [] dd.ulPat = "frac" -> <<-1005, -1>> [] dd.ulPat = "bigint" -> <<-32769, 0>>,
-      ulThick |-> CASE dd.ulPat = "def" -> <<50, 0>> [] dd.ulPat = "int" -> <<123, 0>>
+      ulThick |-> IF dd.fmPat = "shapes"
+                    THEN (LET x == ShapeBlock(dd.realSel, dd.intSel, 0)[6] IN IF Mag(x) <= 9 THEN Me(x) ELSE <<50, 0>>) ELSE
+                  CASE dd.ulPat = "def" -> <<50, 0>> [] dd.ulPat = "int" -> <<123, 0>>
                     [] dd.ulPat = "frac" -> <<2025, -2>> [] dd.ulPat = "bigint" -> <<100000, 0>>,
-      fm |-> FM(dd.fmPat, dd.realSel, topDef),
+      fm |-> FM(dd.fmPat, IF dd.fmPat = "shapes" THEN <<dd.realSel, dd.intSel>> ELSE dd.realSel, topDef),
       ros |-> IF cid THEN [reg |-> IF dd.strPat = "dup" THEN "Shared" ELSE "Adobe",
                            ord |-> IF dd.strPat = "std" THEN "Bold" ELSE "Identity",
                            sup |-> IntBnd[((dd.intSel + 2) % Len(IntBnd)) + 1]]
@@ -330,8 +370,13 @@ Big == {[Dflt EXCEPT !.kind = k, !.n = n, !.nfd = IF k = "cid" THEN 3 ELSE 1, !.
                        !.shapePat = "blank"] :
                k \in {"simple", "cid"}, n \in {m \in BigNs : m > 60000}}
 
+\* every shape of a real, in every float-typed DICT field (24 reals per CID-keyed font with 3 FDs)
+RealShapes == {[Dflt EXCEPT !.kind = "cid", !.nfd = 3, !.n = 3, !.fdPat = "alt", !.fmPat = "shapes", !.realSel = k,
+                        !.intSel = rot, !.shapePat = "blank", !.privPat = "none"] : k \in 1..ShapeFonts, rot \in 0..23}
+
 Init ==
-  /\ CASE Mode = "ofat"  -> d \in {x \in Ofat : Usable(x)} /\ stage = "done"
+  /\ CASE Mode = "shapes" -> d \in RealShapes /\ stage = "done"
+       [] Mode = "ofat"  -> d \in {x \in Ofat : Usable(x)} /\ stage = "done"
        [] Mode = "sweep" -> d \in Sweep /\ stage = "done"
        [] Mode = "big"   -> d \in {x \in Big : Usable(x)} /\ stage = "done"
        [] Mode = "rand"  -> d = Dflt /\ stage = "s1"
